@@ -33,6 +33,7 @@ type GenCfg struct {
 	Atomic      bool
 	InlineOpts  string // letters that may appear in scoped (?o:..) / (?-o:..) groups and inline (?o) items
 	Named       bool
+	Subtraction bool // classes with a subtraction [base-[sub]]
 	Shorthands  bool
 	Dot         bool
 	G           bool // \G
@@ -48,7 +49,7 @@ var baseLetters = []int{'a', 'b', 'c'}
 func cfgC01() GenCfg {
 	return GenCfg{MaxDepth: 4, Letters: []int{'a', 'b', 'c', 'A', 'B', 0xe9, 0xc9, '_', ' ', '\n', '-', 0x1F600, 0x301},
 		Lookbehind: true, Lookahead: true, Refs: true, Conds: true, Anchors: true, Atomic: true,
-		InlineOpts: "ims", Named: true, Shorthands: true, Dot: true, G: false, MaxGroups: 5, MaxRepBound: 3, MaxNodes: 12}
+		InlineOpts: "ims", Named: true, Shorthands: true, Subtraction: true, Dot: true, G: false, MaxGroups: 5, MaxRepBound: 3, MaxNodes: 12}
 }
 
 type Gen struct {
@@ -56,7 +57,7 @@ type Gen struct {
 	c   GenCfg
 	ng  int // groups created so far
 	nms []string
-	bud int // remaining node budget
+	bud int  // remaining node budget
 	N   bool // the pattern will be compiled with ExplicitCapture
 }
 
@@ -68,6 +69,29 @@ func (g *Gen) chance(p float64) bool {
 func (g *Gen) letter() int { return g.c.Letters[g.pick(len(g.c.Letters))] }
 
 func (g *Gen) leaf() *Tree {
+	t := g.leaf0()
+	if g.c.Subtraction && t.N.Op == "chr" && (t.N.Neg || len(t.N.Rs) > 1 || t.N.Rs[0][0] != t.N.Rs[0][1]) && g.chance(0.2) {
+		// [base-[sub]]: the subtracted class is the node's only kid
+		var sub *Tree
+		switch g.pick(4) {
+		case 0:
+			sub = Class(false, [2]int{'a', 'b'})
+		case 1:
+			sub = Class(true, [2]int{'a', 'a'}, [2]int{'c', 'c'})
+		default:
+			l := g.c.Letters[g.pick(min(3, len(g.c.Letters)))]
+			sub = Class(false, [2]int{l, l})
+		}
+		t.Kids = []*Tree{sub}
+		if g.chance(0.15) {
+			// everything but the subtracted class
+			t.N.Rs, t.N.Neg = [][2]int{{0, 0x10FFFF}}, false
+		}
+	}
+	return t
+}
+
+func (g *Gen) leaf0() *Tree {
 	for {
 		switch g.pick(10) {
 		case 0, 1, 2, 3:
